@@ -1294,6 +1294,36 @@ def check_loglik(ctx, case):
       if not close_to(grad[k], mg[k], relk * sc + 1e-300):
         ctx.disagree(f"log-likelihood gradient[{k}]: model {mg[k]!r} vs implementation {float(grad[k])!r} (tol {relk * sc})", case)
         return True
+  if indices:
+    # theorem loglik_grad_correction_zero: the term added under include_nonzero_correction is identically zero in exact
+    # arithmetic (P' a = 0), so both settings of the flag are the derivative; in floating point they differ by the rounding
+    # of P' a, which is bounded through cond(K)
+    try:
+      gc = numpy.asarray(ll.compute_grad_log_likelihood(include_nonzero_correction=True), dtype=float)
+    except Exception as e:  # noqa
+      viol(ctx, "log-likelihood: compute_grad_log_likelihood(include_nonzero_correction=True) raised on valid input", case,
+           {"error": f"{type(e).__name__}: {e}"})
+      return False
+    H = numpy.asarray(gp.covariance.build_kernel_hparam_grad_tensor(Xa.copy()), dtype=float)
+    nB = float(numpy.linalg.norm(B, 2))
+    P = numpy.asarray(gp.P, dtype=float)
+    logscale = lin if logd else [1.0] * len(lin)
+    for k in range(len(lin)):
+      dK = H[:, :, k] if k < H.shape[2] else numpy.eye(n)
+      # |2 a'P w| <= 2 |P'a| |w|, |P'a| ~ eps cond |P|'|a|, |w| <= |(P'K^-1P)^-1| |P'| |B| |dK a|
+      G = P.T @ B @ P
+      try:
+        w = numpy.linalg.solve(G, (B @ P).T @ (dK @ a))
+      except numpy.linalg.LinAlgError:
+        continue
+      bound = 2 * scaling * logscale[k] * (256 * EPS * (1.0 + kappa)) * float(numpy.abs(a) @ numpy.abs(P) @ numpy.abs(w))
+      sc = scaling * logscale[k] * (float(numpy.abs(a) @ numpy.abs(dK) @ numpy.abs(a)) + nB * float(numpy.sum(numpy.abs(dK))))
+      if not close_to(gc[k], grad[k], bound + max(REL, 64 * EPS * kappa) * sc + 1e-300):
+        viol(ctx, "log-likelihood: the gradient with include_nonzero_correction=True differs from the gradient without it beyond rounding "
+                  "(the correction term is identically zero: loglik_grad_correction_zero)", case,
+             {"component": k, "with": float(gc[k]), "without": float(grad[k]), "cond": kappa})
+        return False
+    ctx.count("loglik nonzero-mean correction flag")
   ctx.count("loglik " + ("log" if logd else "linear") + (" auto-noise" if auto else "") + (" mean" if indices else " zero-mean"))
   return True
 
